@@ -41,6 +41,28 @@ def handle : List String → Verdict
           some s!"href/action expression not routed through templ.SafeURL: typed={typed} (want {expected}) viaJoinStringErrs={joined} escapedWrites={written}",
         nontrivial := true, tags := ["typing:" ++ shapeS], sig := s!"typing;{shapeS}" }
     | _, _, _ => .badOp
+  | ["hrefdoc", el, vH, uH, docH] =>
+    match hexField vH, hexField uH, hexField docH with
+    | some _v, some u, some doc =>
+      let want := if el == "a" then Bytes.ofString "href" else Bytes.ofString "action"
+      match HtmlTok.tokenize doc with
+      | .startTag name attrs _ :: _ =>
+        let got := (attrs.find? fun a => a.1 == want).map (·.2)
+        { predfail :=
+            if name != Bytes.ofString el then some "the rendered document does not start with the element"
+            else if attrs.length != 1 then some s!"the element has {attrs.length} attributes instead of one: the URL left its attribute value"
+            else if got != some u then some s!"the browser reads the {el} URL as {Bytes.toHex (got.getD [])}, templ.URL returned {Bytes.toHex u}"
+            else none,
+          nontrivial := Html.escape u != u, tags := ["hrefdoc:" ++ el], sig := "hrefdoc;" ++ el }
+      | _ => { predfail := some "the rendered document does not start with a start tag", nontrivial := true, sig := "hrefdoc;structure" }
+    | _, _, _ => .badOp
+  | ["urlpar", nS, inH, aloneH, gotH] =>
+    match hexField inH, hexField aloneH, hexField gotH with
+    | some inp, some alone, some got =>
+      { predfail := if nS == "0" then none else
+          some s!"templ.URL called from 16 goroutines at once: {nS} input(s) got another answer than when called alone, e.g. {Bytes.toHex inp}: alone {Bytes.toHex alone}, concurrently {Bytes.toHex got}",
+        nontrivial := true, tags := ["concurrent-url"], sig := "urlpar" }
+    | _, _, _ => .badOp
   | ["spread", el, vH, docH] =>
     match hexField vH, hexField docH with
     | some v, some doc =>
